@@ -17,7 +17,7 @@ LEVEL_TEXT = ('Kernel-checked theorems (Props/C20.v): the Gallina transcription 
               'offsets, DIA semantics) equals the specification "row p holds the stencil entries of the neighbours that '
               'exist" on EVERY grid -- any number of dimensions, any positive extents, 1-wide and non-square included -- and for every '
               'stencil of the grid\'s dimension, whatever its extents and entries (C20_stencil_grid_is_spec: induction; the flat index <-> '
-              'multi-index bijection C20_grid_points_row_major; the earlier bounded vm_compute theorem is kept); the FE and FD 2-D diffusion stencils, written operation by operation as the '
+              'multi-index bijection C20_grid_points_row_major; the earlier bounded vm_compute theorem is kept); each pair of grid points receives exactly the stencil entry at position q - p + centre (C20_stencil_entry_is_the_neighbour_entry); the Gallina transcription of poisson() has on every grid in any dimension the closed-form entries (2N or 3^N-1, -1 for existing neighbours), is symmetric, has a positive diagonal and off-diagonals in {-1, 0} (C20_poisson_matrix_closed_form, C20_poisson_symmetric_sign_pattern) and must equal what poisson() returns on every generated grid; the FE and FD 2-D diffusion stencils, written operation by operation as the '
               'library computes them from eps, cos(theta), sin(theta), are exact on all quadratic polynomials (0 on 1, x, y; '
               '-2 K11, -2 K22, -2 K12 on x^2, y^2, xy with K = Q diag(1, eps) Q^T), for every anisotropy and rotation, over any '
               'field with 2 and 3 invertible -- they discretise -div K grad u -- and these Gallina stencils evaluated at '
@@ -38,7 +38,7 @@ RULE += (' '
          'FE Poisson: tensor-product spectrum 3^N - prod(1 + 2 cos) and zero interior row sums.')
 THOROUGH_ROUNDS = 4
 TRUSTED = ['SciPy dia_array semantics and format conversion', 'NumPy eigvalsh on the oracle side']
-PARTIAL = ['stencil theorem: exact arithmetic, DIA container semantics modelled (A[i, i+off] = data[off][i+off])', 'Poisson spectrum and elasticity: oracle only']
+PARTIAL = ['stencil theorem: exact arithmetic, DIA container semantics modelled (A[i, i+off] = data[off][i+off])', 'Poisson spectrum / nonsingularity and elasticity: oracle only']
 HEADER = ('From Coq Require Import ZArith List.\nImport ListNotations.\n'
           'Require Import PV.Base.Ops PV.Model.StencilRun.\nOpen Scope Z_scope.\n')
 
@@ -120,6 +120,36 @@ def run(ctx):
                     Aref = poisson(grid, format='csr', type=typ).toarray()
                     if not np.array_equal(np.asarray(Ap.toarray(), dtype=complex), Aref.astype(complex)):
                         ctx.fail('poisson/values-depend-on-dtype', 'entries differ from the float64 matrix', case)
+    # the Gallina transcription of poisson() (Model/Poisson.v: stencil construction + stencil_grid model), evaluated in Coq, against
+    # the matrices the working tree returns: every grid with up to 5 / 4 / 3 points per dimension in 1 / 2 / 3 D, one 4-D grid
+    pgrids = [(a,) for a in range(1, 7)] + [(a, b_) for a in range(1, 5) for b_ in range(1, 5)] + \
+             [(a, b_, c_) for a in range(1, 4) for b_ in range(1, 4) for c_ in range(1, 4)] + [(2, 1, 2, 2)]
+    pcases, pmeta = [], []
+    for grid in pgrids:
+        for typ in ('FD', 'FE'):
+            case = dict(poisson=list(grid), type=typ, tie='Model/Poisson.v')
+            try:
+                Ad = sp.csr_array(poisson(grid, format='csr', type=typ)).toarray()
+            except Exception as e:   # noqa
+                ctx.fail('poisson/raises', repr(e), case)
+                continue
+            if not np.all(Ad == np.round(Ad)):
+                ctx.fail('poisson/non-integer-entries', '', case)
+                continue
+            ctx.case(('poisson-model', grid, typ), True)
+            ctx.count('poisson-model')
+            pcases.append('(%s, %s, %s)' % ('true' if typ == 'FE' else 'false', cq.zl(grid), cq.lst([cq.zl(r) for r in np.round(Ad).astype(int).tolist()])))
+            pmeta.append((case, Ad.tolist()))
+    PH = HEADER.replace('PV.Model.StencilRun.', 'PV.Model.StencilRun PV.Model.Poisson.')
+    bad, errs = cq.run_cases('c20p', PH, '(bool * list Z * list (list Z))%type', 'chkP', pcases, shard=40)
+    for e in errs:
+        ctx.disagree('C20 Poisson model evaluation', None, e, None)
+    for i in bad[:20]:
+        case, D = pmeta[i]
+        mo = cq.eval_term('c20p_bad', PH, 'match %s with (fe,g,_) => poissonZ fe g end' % pcases[i])
+        ctx.disagree('poisson', case, mo, D)
+        ctx.fail('poisson/not-the-documented-matrix', 'matrix differs from the closed form (2N or 3^N-1 on the diagonal, -1 for the neighbours that exist)', case)
+    ctx.corr_relations.append('dense(poisson(grid, type=FD|FE)) == Poisson.poissonZ (stencil built as in laplacian.py, assembled by the stencil_grid model; exact, in Coq)')
     for grid in [(1,), (2,), (5,), (1, 4), (3, 3), (4, 2), (2, 3, 2), (3, 3, 3), (1, 1, 4)]:
         for typ in ('FD', 'FE'):
             case = dict(poisson=list(grid), type=typ)
